@@ -2,6 +2,10 @@
 EXTENDS ChequeStore
 MCKeys == 1..3
 MCRegPeers == 1..2
+MCNoPeers == {}
 MCAllPeers == 1..3
 MCCums == {1, 2, 3, 5}
+MCCumsSmall == {1, 2}
+\* the ghost `claim` is not part of the design's state
+MCView == <<last, credited, recv, reg, res>>
 =============================================================================
